@@ -181,6 +181,7 @@ def add_error_capture_pair(rng, case):
              S("", "recerr", "eq1_", uid=u + 2), S("", "recerr", "eq2_", uid=u + 3)]
     case.faults = [(u, "eval", o) for o in sorted(rng.sample(range(1, 6), 2))] + [(u + 1, "eval", o) for o in sorted(rng.sample(range(1, 6), 2))]
     case.meta["errpair"] = [u, u + 1]
+    case.meta["errpair_values"] = {str(u + 2): weak["values"], str(u + 3): strong["values"]}
     return 1
 
 
@@ -280,6 +281,7 @@ def generate(rng, tier, seed):
             c.meta["errpair_n"] = base.meta["errpair_n"]
             if base.meta.get("errpair"):
                 c.meta["errpair"] = base.meta["errpair"]
+                c.meta["errpair_values"] = base.meta["errpair_values"]
             c.meta["order"] = j
             cases.append(c)
     return cases
@@ -353,6 +355,17 @@ def check(case, tr):
         streams.setdefault(ue.uid, set()).add((ue.t, ue.out, tuple(ue.ins)))
     # captured error values (time, message, complete error value) are output streams too
     err_events = 0
+    own_detail = 0
+    for seq, kind, tk in run.events:
+        if kind == "u.err" and tk[0] in case.meta.get("errpair_values", {}):
+            # each node's error output carries the detail of ITS OWN request (input values in the back trace iff asked for)
+            want = bool(case.meta["errpair_values"][tk[0]])
+            has = "value=" in " ".join(tk[5:])
+            own_detail += 1
+            if has != want and len(res.violations) < 6:
+                res.violations.append(Violation(f"error output uid {tk[0]} at t={tk[3]}: captured with values={int(want)} but the error value "
+                                                f"{'carries' if has else 'does not carry'} input values - it follows another node's capture request: "
+                                                f"{' '.join(tk[5:])[:160]}"))
     for seq, kind, tk in run.events:
         if kind == "u.err":
             # (node indices inside a back trace are ranks, which legitimately depend on the statement order)
@@ -372,6 +385,6 @@ def check(case, tr):
                     "duplicated_sinks": sinks, "delayed_reroutes": case.meta.get("reroutes", 0), "runs_compared": len(mr.runs),
                     "packed_parameter_near_duplicates": case.meta.get("packed", 0),
                     "shared_nodes_with_two_error_captures": case.meta.get("errtwice_n", 0), "captured_error_values_compared": err_events,
-                    "node_pairs_with_different_capture_options": case.meta.get("errpair_n", 0)}
+                    "node_pairs_with_different_capture_options": case.meta.get("errpair_n", 0), "own_capture_detail_checks": own_detail}
     res.nontrivial = (shared + distinct + sinks) >= 1 and pairs >= 1
     return res
